@@ -468,11 +468,25 @@ func c18Histories(r *ev.Run) {
 	dir := ev.TmpDir("c18")
 	defer os.RemoveAll(dir)
 	big := strings.Repeat("0123456789abcdef", 100)
-	img := MustMakeDB(1024, `CREATE TABLE b (id INTEGER PRIMARY KEY, v BLOB, t TEXT);
+	img1 := MustMakeDB(1024, `CREATE TABLE b (id INTEGER PRIMARY KEY, v BLOB, t TEXT);
 INSERT INTO b VALUES (1, x'0102030405', 'small text');
 INSERT INTO b VALUES (2, CAST('`+big+`' AS BLOB), '`+big+`');
 INSERT INTO b VALUES (3, x'ffeeddccbbaa99', 'third');
 INSERT INTO b VALUES (4, x'', '');`)
+	// large page: blobs of several KB that still sit inside the (cached) page, and one that overflows
+	mid := strings.Repeat("0123456789abcdef", 320)   // 5120 bytes, in-page at page size 16384
+	huge := strings.Repeat("fedcba9876543210", 1500) // 24000 bytes, overflows
+	img2 := MustMakeDB(16384, `CREATE TABLE b (id INTEGER PRIMARY KEY, v BLOB, t TEXT);
+INSERT INTO b VALUES (1, CAST('`+mid+`' AS BLOB), 'in-page 5 KB blob');
+INSERT INTO b VALUES (2, CAST('`+huge+`' AS BLOB), '`+mid+`');
+INSERT INTO b VALUES (3, CAST('`+mid+`x' AS BLOB), 'third');
+INSERT INTO b VALUES (4, x'', '');`)
+	for ii, img := range [][]byte{img1, img2} {
+		c18HistoriesOn(r, dir, ii, img)
+	}
+}
+
+func c18HistoriesOn(r *ev.Run, dir string, imgNo int, img []byte) {
 	depth := 4
 	if r.Thorough() {
 		depth = 5
@@ -500,7 +514,7 @@ INSERT INTO b VALUES (4, x'', '');`)
 		if last != "reread" && last != "fresh" && last != "verify" {
 			return
 		}
-		path := filepath.Join(dir, fmt.Sprintf("h%d.sqlite", i))
+		path := filepath.Join(dir, fmt.Sprintf("h%d-%d.sqlite", imgNo, i))
 		if err := os.WriteFile(path, img, 0o644); err != nil {
 			r.Harness("history file: %v", err)
 			return
@@ -519,7 +533,7 @@ INSERT INTO b VALUES (4, x'', '');`)
 			return
 		}
 		r.Eval(1)
-		r.State(strings.Join(hs, ","))
+		r.State(fmt.Sprint(imgNo) + strings.Join(hs, ","))
 		interesting := false
 		for k, op := range hs {
 			if op == "mutate" || op == "close" {
@@ -531,7 +545,7 @@ INSERT INTO b VALUES (4, x'', '');`)
 				sig, what = "C18:history:panic", fmt.Sprint(p)
 			}
 			if sig != "" {
-				r.Violation(sig, fmt.Sprintf("history %v, step %d (%s): %s", hs[:k+1], k, op, what), map[string]interface{}{"history": hs[:k+1]})
+				r.Violation(sig, fmt.Sprintf("history %v, step %d (%s) on image %d: %s", hs[:k+1], k, op, imgNo, what), map[string]interface{}{"history": hs[:k+1], "image": []string{"page size 1024, blobs of 5 and 1600 bytes", "page size 16384, in-page blobs of 5 KB, overflowing blob of 24 KB"}[imgNo]})
 				break
 			}
 		}
